@@ -67,6 +67,38 @@ Theorem C12_partial_split : forall e l1 l2 vcs t v,
 Proof. exact partial_split. Qed.
 Print Assumptions C12_partial_split.
 
+(* round 6 -- SEVERAL substitution steps one after the other (evaluate_symbolic on the result of evaluate_symbolic ...),
+   any number of them: evaluating the final formula = evaluating the written formula at once in the scope the steps
+   denote (the later steps give the scope the terms of the earlier ones are read in); every step capture free on the
+   formula it is applied to *)
+Theorem C12_subst_chain : forall ss e r, chain_free ss e = true ->
+  rsim (eval r (subst_chain ss e)) (eval (ext_chain r ss) e).
+Proof. exact subst_chain_sim. Qed.
+Print Assumptions C12_subst_chain.
+
+Theorem C12_subst_chain_value : forall ss e r v, chain_free ss e = true ->
+  (eval r (subst_chain ss e) = Ok v <-> eval (ext_chain r ss) e = Ok v).
+Proof. exact subst_chain_value. Qed.
+Print Assumptions C12_subst_chain_value.
+
+(* ... steps that substitute numbers only: no guard *)
+Theorem C12_partial_chain : forall ls e r,
+  rsim (eval r (subst_chain (map consts ls) e)) (eval (ext_chain r (map consts ls)) e).
+Proof. exact partial_chain_sim. Qed.
+Print Assumptions C12_partial_chain.
+
+(* example (the class of seed C12-9: k is free AND the index of the Sum): the chain k := c, then c := 2, n := 3 gives
+   14 on both sides; the bound k stays; the joint mapping would give 17 *)
+Theorem C12_subst_chain_nonvacuous :
+  (chain_free [chain_s1; chain_s2] chain_e = true) /\
+  (subst_chain [chain_s1; chain_s2] chain_e =
+    Bin BAdd (Const (2 # 1)) (Sum 10%N (Const 0) (Const (3 # 1)) (Bin BMul (Const (2 # 1)) (Var 10%N)))) /\
+  (exists v, eval chain_r (subst_chain [chain_s1; chain_s2] chain_e) = Ok v /\ v == 14 # 1) /\
+  (exists v, eval (ext_chain chain_r [chain_s1; chain_s2]) chain_e = Ok v /\ v == 14 # 1) /\
+  (exists v, eval chain_r (subst (chain_s1 ++ chain_s2) chain_e) = Ok v /\ v == 17 # 1).
+Proof. exact chain_nonvacuous. Qed.
+Print Assumptions C12_subst_chain_nonvacuous.
+
 (* builders: the formula built by `a <op> b` evaluates to the operator applied to the values (// = floor of quotient) *)
 Theorem C12_builders : forall r o a b,
   eval r (build o a b) = bind2 (eval r a) (eval r b) (bop_val o).
